@@ -6,7 +6,8 @@ def register(check, TIERB_NOTE):
           "Seeded search over operation histories on every generated ordered map of the corpus (single-key, multi-key, nested; direct methods and "
           "parent helpers), each call checked against an insertion-ordered unique-key reference model, with rejected operations (duplicate / nil key, "
           "nil element, nil receiver) injected as faults that must leave the map unchanged, returned slices mutated to prove they are copies, and "
-          "order compared after JSON, gNMI and DeepCopy round trips. The ordered-map code is regenerated from YANG by the working tree's own generator "
+          "order compared after JSON, gNMI and DeepCopy round trips; ordered lists keyed by unions and enumerations (zero-valued union keys included) come from a "
+          "package of their own. The ordered-map code is regenerated from YANG by the working tree's own generator "
           "at check time, so a change to the templates is what gets tested. Exploration is the right level: the property quantifies over histories and "
           "the state space per map is small enough that thousands of short histories revisit every transition many times.",
           "DESIGN.md §5 (Tier B, C15)", TIERB_NOTE,
@@ -15,7 +16,7 @@ def register(check, TIERB_NOTE):
           "Seeded search over helper-call histories on every keyed list of the corpus (string, uint32, int64, enum, identityref, union, bool, multi-key "
           "incl. enum+union+int8 keys; plain-map form of ordered lists too), each call checked against a key-tuple -> entry-identity map model: "
           "New/Append reject duplicates (Append also nil keys) without changing the map, GetOrCreate idempotent, Get never creates, Rename moves the "
-          "entry and rewrites its key leaves; after every call every entry's key leaves are compared with its map key by the harness's own walker. "
+          "entry and rewrites its key leaves (renames to keys with an unset enum / union part are injected: refused or obeyed, the map invariant must survive); after every call every entry's key leaves are compared with its map key by the harness's own walker. "
           "Helpers are regenerated from YANG by the working tree's generator at check time.",
           "DESIGN.md §5 (Tier B, C34)", TIERB_NOTE,
           "deterministic simulation: seeded operation histories vs executable reference model, rejected-operation injection, ddmin-minimised replay")
@@ -31,7 +32,8 @@ def register(check, TIERB_NOTE):
           "Seeded search over SetNode(InitMissingElements) histories: targets drawn by random descent of the schema through every list key type (existing and "
           "new entries), payloads built by the harness's own TypedValue / RFC 7951 encoders from type-correct generated values; after each successful set the "
           "walker's leaf set may differ from the previous one only in the target leaf and the key leaves of entries created on the way, and GetNode must return "
-          "exactly one node holding the value in the leaf's Go type. Ill-typed payloads, unknown paths and missing keys are injected as failing operations.",
+          "exactly one node holding the value in the leaf's Go type. Ill-typed payloads, unknown paths, missing keys and int_vals beyond the leaf's width (with "
+          "TolerateJSONInconsistencies) are injected as failing operations; in a third of the runs equal-valued leaves of the tree share one pointer.",
           "DESIGN.md §5 (Tier B, C10)", TIERB_NOTE,
           "deterministic simulation: seeded operation histories vs path->value reference model, failing-operation injection, ddmin-minimised replay")
     check("C13", "exploration",
@@ -40,7 +42,8 @@ def register(check, TIERB_NOTE):
           "RFC 7951 encoders, optionally under a common prefix, with overlapping steps inside one request); the recorded effects are applied to a "
           "path -> value reference model in gNMI order and compared (leaf set and ordered-list order) with the harness's walk of the tree after "
           "UnmarshalSetRequest / UnmarshalNotifications. Atomic notifications include empty ones (the subtree at the prefix is replaced by nothing). "
-          "Requests with one undecodable update are injected as failing operations: they must be rejected.",
+          "The same container or list entry may be updated twice with different payloads. Requests with one undecodable update, or with a prefix whose target / origin "
+          "contradicts a path's, are injected as failing operations: they must be rejected.",
           "DESIGN.md §5 (Tier B, C13)", TIERB_NOTE,
           "deterministic simulation: seeded request histories vs gNMI reference model (model-first generation), failing-request injection, ddmin-minimised replay")
     check("C03", "exploration",
@@ -68,8 +71,9 @@ def register(check, TIERB_NOTE):
     check("C21", "exploration",
           "Deterministic simulation of concurrent callers: 2-4 (thorough: up to 6) tasks run as real goroutines under a seeded cooperative scheduler that "
           "decides every switch (yield points at every function entry, store and lock operation of ygot's runtime packages and of the generated code; "
-          "random-walk preemption with swarm-drawn mean gap, starvation windows, lock-biased preemption right after a mutex is acquired, regexp-cache "
-          "evictions as buggify, failing operations mixed in). Workloads: read-only operations on one shared tree (Validate, EmitJSON, Marshal7951, "
+          "and in front of every sync/atomic, sync.Map, sync.Once ... operation; random-walk preemption with swarm-drawn mean gap, starvation windows, lock-biased "
+          "preemption right after a mutex is acquired, regexp-cache evictions as buggify, a simulated process restart - package-level state of the runtime "
+          "packages re-initialised - before every interleaved phase, failing operations mixed in). Workloads: read-only operations on one shared tree (Validate, EmitJSON, Marshal7951, "
           "ConstructIETFJSON, TogNMINotifications with shared prefix slices, GetNode with shared path messages, Diff, DiffWithAtomic, DeepCopy, EncodeTypedValue, "
           "each with its option variants) and Unmarshal (bytes and one shared decoded JSON value) / SetNode (scalar and JSON-IETF payloads at leaf, container "
           "and list-entry paths) / UnmarshalSetRequest (requests generated as for C13, prefixes with spare capacity, some wire-decoded) "
